@@ -89,7 +89,10 @@ def exc_key(x):
             fr = f
     if fr is None:
         fr = tb[-1]
-    return {'exc': type(x).__name__, 'func': fr.name, 'line': ' '.join((fr.line or '').split())[:80]}
+    k = {'exc': type(x).__name__, 'func': fr.name, 'line': ' '.join((fr.line or '').split())[:80]}
+    if isinstance(x, KeyError) and x.args and isinstance(x.args[0], str):
+        k['key'] = x.args[0][:40]          # the missing key (e.g. the operator name nobody evaluates)
+    return k
 
 
 def guarded(fn, arg, seconds=5):
